@@ -83,8 +83,9 @@ pub fn oracle(tr: &Transition) -> Vec<Violation> {
 /// State rider: operations that fail part way must be as reproducible as those that succeed. A
 /// delete of several versions that names a missing version, or whose second directory removal
 /// fails, is replayed from the same snapshot under two runtime flavours and compared.
-pub fn on_state(st: &hist::HState, scratch: &crate::util::Scratch, _srcs: &crate::common::SrcCache) -> Vec<(Violation, Value)> {
+pub fn on_state(st: &hist::HState, scratch: &crate::util::Scratch, srcs: &crate::common::SrcCache) -> Vec<(Violation, Value)> {
     let mut out = Vec::new();
+    faulty_backup_rider(st, scratch, srcs, &mut out);
     let ids = st.snap.band_ids();
     let newest_complete = ids.last().is_some_and(|b| st.snap.has_tail_file(*b));
     if ids.len() < 2 || !newest_complete {
@@ -136,8 +137,75 @@ pub fn on_state(st: &hist::HState, scratch: &crate::util::Scratch, _srcs: &crate
     out
 }
 
+/// Second state rider: a backup during which one read of the archive fails must leave the same
+/// archive however the concurrent reads of that backup are scheduled. The next backup of the
+/// state's source is traced once; then, for every directory listing (thorough: every read) it
+/// makes, it is replayed from the same snapshot with exactly that operation failing - once on the
+/// current-thread runtime, where sibling tasks complete in the order they were spawned and the
+/// failure comes at once, and once on a two-worker runtime with the failure delayed until its
+/// siblings have long completed - and the resulting archives are compared.
+fn faulty_backup_rider(st: &hist::HState, scratch: &crate::util::Scratch, srcs: &crate::common::SrcCache, out: &mut Vec<(Violation, Value)>) {
+    use conserve::transport::record::Verb;
+    // quick: seeds and their successors only (the deeper states add little here: what matters is
+    // an archive with several block subdirectories, which every seed with a version has)
+    if st.snap.band_ids().is_empty() || (THOROUGH.load(Ordering::Relaxed) == 0 && st.depth > 1) {
+        return;
+    }
+    let src = srcs.dir_for(&st.src.tree());
+    let opts = hist::opts_of(0);
+    let probe = scratch.fresh("fp");
+    st.snap.store(&probe);
+    let icpt = crate::hook::Icpt::new(&probe, crate::hook::Plan::none());
+    let _ = run::do_backup(&probe, &src, &opts, Some(&icpt), Flavor::Current);
+    let mut sites: Vec<(Verb, String)> = Vec::new();
+    for r in icpt.take_log() {
+        let wanted = r.verb == Verb::ListDir || (THOROUGH.load(Ordering::Relaxed) == 1 && matches!(r.verb, Verb::Read | Verb::Metadata));
+        if wanted && !sites.contains(&(r.verb, r.path.clone())) {
+            sites.push((r.verb, r.path.clone()));
+        }
+    }
+    let _ = std::fs::remove_dir_all(&probe);
+    for (verb, path) in sites {
+        let mut results = Vec::new();
+        for (flavor, delay) in [(Flavor::Current, 0u64), (Flavor::Multi(2), 5)] {
+            let dir = scratch.fresh("fb");
+            st.snap.store(&dir);
+            let plan = crate::hook::Plan {
+                fail_path: Some((verb, path.clone(), conserve::transport::ErrorKind::Other, delay)),
+                ..Default::default()
+            };
+            let icpt = crate::hook::Icpt::new(&dir, plan);
+            let o = run::do_backup(&dir, &src, &opts, Some(&icpt), flavor);
+            REEXEC.fetch_add(1, Ordering::Relaxed);
+            results.push((o.ok_stats().is_some(), Snap::load(&dir).canonical(), o.describe()));
+            let _ = std::fs::remove_dir_all(&dir);
+        }
+        if results[0].0 != results[1].0 || results[0].1 != results[1].1 {
+            out.push((
+                Violation::new(
+                    "C17:archive-differs-between-replays:backup-with-a-failing-read",
+                    format!(
+                        "seed {} after {:?}: backup of the same source with {} of {path} failing, replayed from the same snapshot on the current-thread runtime ({}) and on two workers with the failure delayed ({}): {}",
+                        st.seed,
+                        st.describe_path(),
+                        crate::hook::verb_name(verb),
+                        results[0].2,
+                        results[1].2,
+                        first_difference(&results[0].1, &results[1].1)
+                    ),
+                ),
+                hist::case_json("C17", st.seed, &st.path),
+            ));
+            break;
+        }
+    }
+}
+
+static THOROUGH: AtomicUsize = AtomicUsize::new(0);
+
 pub fn run(report: &Report, budget: &Budget) {
     let thorough = report.thorough();
+    THOROUGH.store(thorough as usize, Ordering::Relaxed);
     let depth = if thorough { 3 } else { 2 };
     let st = hist::explore(report, budget, "C17", depth, thorough, false, thorough, &oracle, Some(&on_state), None);
     hist::write_stats(report, &st, depth);
